@@ -903,6 +903,34 @@ func mutations() []mutation {
 			}
 			return false
 		}},
+		{"shallow-list-variable", "variableUsagesAllowed", func(r *hx.Rand, v *View, d *GDoc) bool {
+			// a variable declared exactly one list level too shallow for its nested-list position
+			// ([T] for [[T]]): variables are never item-to-list coerced (seed C04-13)
+			type cand struct {
+				op *GDef
+				gv *GVar
+			}
+			var cs []cand
+			for _, op := range ops(d) {
+				for _, gv := range op.Vars {
+					if n := gv.Type.Nullable(); n.Kind == "list" && n.Of.Nullable().Kind == "list" {
+						cs = append(cs, cand{op, gv})
+					}
+				}
+			}
+			if len(cs) == 0 {
+				return false
+			}
+			c := hx.Pick(r, cs)
+			inner := c.gv.Type.Nullable().Of
+			opts := []*TypeRef{inner, inner.Nullable()}
+			if c.gv.Type.IsNonNull() {
+				opts = append(opts, NonNull(inner.Nullable()), NonNull(inner.Nullable()))
+			}
+			c.gv.Type = hx.Pick(r, opts)
+			c.gv.Default = nil
+			return true
+		}},
 		{"duplicate-operation-name", "opNameUnique", func(r *hx.Rand, v *View, d *GDoc) bool {
 			os := ops(d)
 			o := hx.Pick(r, os)
